@@ -353,6 +353,44 @@ func windowStartOnly(a, b *etree.Element) bool {
 	return canonical(x) == canonical(y)
 }
 
+// timelineEndMoved: some SegmentTimeline of b ends later than its counterpart in a.
+func timelineEndMoved(a, b *etree.Element) bool {
+	var sa, sb []*etree.Element
+	collectTag(a, "SegmentTimeline", &sa)
+	collectTag(b, "SegmentTimeline", &sb)
+	if len(sa) != len(sb) {
+		return false
+	}
+	for i := range sa {
+		la, ok1 := expandS(sa[i])
+		lb, ok2 := expandS(sb[i])
+		if !ok1 || !ok2 || len(la) == 0 || len(lb) == 0 {
+			continue
+		}
+		ea, eb := la[len(la)-1], lb[len(lb)-1]
+		if eb[0]+eb[1] > ea[0]+ea[1] {
+			return true
+		}
+	}
+	return false
+}
+
+// dropTimeSubs returns a copy without the AdaptationSets that livesim2 generates for timesubs* (ids from 100).
+func dropTimeSubs(root *etree.Element) *etree.Element {
+	c := root.Copy()
+	var as []*etree.Element
+	collectTag(c, "AdaptationSet", &as)
+	for _, a := range as {
+		var id int
+		if _, err := fmt.Sscan(a.SelectAttrValue("id", ""), &id); err == nil && id >= 100 && a.SelectAttrValue("contentType", "") == "text" {
+			if p := a.Parent(); p != nil {
+				p.RemoveChild(a)
+			}
+		}
+	}
+	return c
+}
+
 func periodIDs(root *etree.Element) string {
 	var ids []string
 	for _, p := range root.ChildElements() {
@@ -705,9 +743,18 @@ func runL1x(c *lib.Ctx, ls *lib.Livesim, id string, in c11in, failIn any) (o l1o
 			if o.PT1 == o.PT2 {
 				// the two MPDs differ but carry the same publishTime: nothing the patch code can see
 				key = "425-but-changed:same-publishTime:other"
+				if timelineEndMoved(d1.Root(), d2.Root()) {
+					// segments were added at the new end of a timeline while publishTime stayed
+					key = "425-but-changed:same-publishTime:timeline-end"
+				}
 				if periodIDs(d1.Root()) != periodIDs(d2.Root()) {
 					// a Period was added or left the window while publishTime stayed
 					key = "425-but-changed:same-publishTime:period-list"
+				}
+				if key == "425-but-changed:same-publishTime:other" && windowStartOnly(dropTimeSubs(d1.Root()), dropTimeSubs(d2.Root())) {
+					// apart from the generated time-subtitle AdaptationSets (ids 100..) only the old end moved:
+					// the S@t values of the generated subtitle timeline are not the same in the two MPDs
+					key = "425-but-changed:same-publishTime:timesubs-timeline"
 				}
 				if windowStartOnly(d1.Root(), d2.Root()) {
 					// they differ solely at the old end of the timelines (segments left the time-shift window)
